@@ -313,7 +313,11 @@ Lemma readbacks_concat res : 0 < res -> forall batches,
     [ concat (map (fun c => olist (k_count c)) out); concat (map (fun c => olist (k_sum c)) out);
       concat (map (fun c => olist (k_min c)) out); concat (map (fun c => olist (k_max c)) out) ].
 Proof.
-  intros Hr batches Hch out. unfold readbacks, readback.
+  intros Hr batches Hch out.
+  change (readbacks out) with
+    [ readback (map (fun c => olist (k_count c)) out); readback (map (fun c => olist (k_sum c)) out);
+      readback (map (fun c => olist (k_min c)) out); readback (map (fun c => olist (k_max c)) out) ].
+  unfold readback.
   assert (L : forall f : achunk -> option (list (Z * Z)),
              (forall b, map fst (olist (f (float_batch cw res b))) = labels res b) ->
              readback_from None (map (fun c => olist (f c)) out) = concat (map (fun c => olist (f c)) out)).
@@ -441,3 +445,39 @@ Proof.
 Qed.
 
 
+
+(* tie T: the aggregates the querier selects for the four functions *)
+Lemma aggr_selection :
+  map lookup_aggr read_funcs = [[1]; [2]; [3]; [4]].
+Proof. vm_compute. reflexivity. Qed.
+
+(* ---- negative timestamps: outside the domain, and why ---- *)
+
+(* downsampleBatch uses nextT = -1 for "no window yet".  A sample at t <= -1 does not open a
+   window (t > nextT fails) and is added to the zero-valued aggregator; the window that ends
+   at -1 is indistinguishable from "no window".  Two witnesses, resolution 10: *)
+
+(* (a) a negative sample followed by a non-negative one: the negative sample is lost *)
+Lemma negative_lost :
+  let data := [(-10, Some 5); (0, Some 7)] in
+  StronglySorted Z.lt (map fst data) /\
+  exists out rows, downsample_raw_m 10 1 data = Some out /\ all_rows out = Some rows /\
+    rows = [(0, (1, 7, 7, 7))] /\ ~ totals_spec (keep_nonnan data) rows.
+Proof.
+  cbv zeta. split; [repeat constructor|].
+  eexists. eexists. split; [vm_compute; reflexivity|]. split; [vm_compute; reflexivity|].
+  split; [reflexivity|]. unfold totals_spec. cbn. intros (H & _). discriminate.
+Qed.
+
+(* (b) only negative samples: windows [-30,-21], [-20,-11], [-10,-1] are merged into one row
+   at -1 whose min is 0, the zero value of the never-reset aggregator, not the true min 1 *)
+Lemma negative_merged :
+  let data := [(-25, Some 1); (-13, Some 2); (-1, Some 4)] in
+  StronglySorted Z.lt (map fst data) /\
+  exists out rows, downsample_raw_m 10 1 data = Some out /\ all_rows out = Some rows /\
+    rows = [(-1, (3, 7, 0, 4))] /\ ~ totals_spec (keep_nonnan data) rows.
+Proof.
+  cbv zeta. split; [repeat constructor|].
+  eexists. eexists. split; [vm_compute; reflexivity|]. split; [vm_compute; reflexivity|].
+  split; [reflexivity|]. unfold totals_spec. cbn. intros (_ & _ & H & _). discriminate.
+Qed.
